@@ -383,6 +383,10 @@ func FsFaultOps(ops string) {}
 // matter for the property at hand).
 func FsStatDirs(on bool) {}
 
+// FsStatFromWalk: os.Stat/Lstat succeed exactly for the paths registered with
+// WalkEntry (with their kind); every other path does not exist.
+func FsStatFromWalk(on bool) {}
+
 func I16(name string) int16 { return int16(U16(name)) }
 
 // SchedYieldOnly selects the scheduling granularity of the engine: when on,
